@@ -39,6 +39,8 @@ def render(idx, letters, nd):
 
 # the last two mark the gaps of ONE series in two ways at once: alternately with the finite marker and with NaN / +inf
 ENCODINGS = ["below", "inside", "above", "zero", "nan", "+inf", "-inf", "mixed nan", "mixed inf"]
+# NaN / +-inf cells declared with the same value as the nodata argument (only where a check asks for them)
+SELF_DECLARED = ["nan=nodata", "+inf=nodata", "-inf=nodata"]
 
 
 def placeholder(enc, letters):
@@ -73,10 +75,11 @@ def encode(idx, letters, enc, nodata_for_special=-3000.0):
         order = np.cumsum(gap, axis=1)
         y[gap & (order % 2 == 0)] = special
         return y, nodata_for_special
-    special = {"nan": np.nan, "+inf": np.inf, "-inf": -np.inf}[enc]
+    same = enc.endswith("=nodata")   # the special value is also what the caller declares as nodata
+    special = {"nan": np.nan, "+inf": np.inf, "-inf": -np.inf}[enc.split("=")[0]]
     y = render(idx, letters, 0.0)
     y[idx == 0] = special
-    return y, nodata_for_special
+    return y, (special if same else nodata_for_special)
 
 
 # ------------------------------------------------------------------ kernel drivers
